@@ -72,11 +72,8 @@ def run(ctx, mod, prop):
         for kind in kinds:
             d = depth if kind == "py" else max(2, depth - 1)
             bfs.search(ctx, kind, mod, spec, ops, d, label="%s/%s" % (label, kind))
-    try:
-        from .. import runfam
-    except ImportError:
-        runfam = None
-    if runfam is not None:
-        runfam.check_family(ctx, prop)
+    from .. import runcheck
+
+    runcheck.check_family(ctx, prop)
     if ctx.cov["states"] < 300:
         ctx.violation({"rule": "vacuity", "observed": "only %d states could be observed" % ctx.cov["states"], "expected": ">= 300"})
